@@ -51,7 +51,7 @@ def ill_classes(s):
 
 
 def in_domain(s):
-    """outside the modelled domain: non-ASCII digits anywhere; blanks / '_' inside the charge number"""
+    """outside the generated domain: non-ASCII digits anywhere; blanks / '_' inside the charge number; a written zero charge"""
     if any(ch.isdigit() and not ('0' <= ch <= '9') for ch in s) or any(ord(ch) > 127 and ch.isnumeric() for ch in s):
         return False
     core = strip_affixes(s)
@@ -59,6 +59,11 @@ def in_domain(s):
         if tok in core:
             after = core.split(tok, 1)[1]
             if any(ch in after for ch in ' \t\n\r\x0b\x0c_') or any(ord(ch) > 127 and ch.isspace() for ch in after):
+                return False
+            if after and set(after) == {'0'}:
+                # written zero charge ("Fe+0"): formula_to_composition gives {.., 0: 0} (as the model does) but
+                # Substance.from_formula raises UnboundLocalError in _formula_to_format -- reported defect (notes/C01.md),
+                # excluded from generation until it is fixed or recorded in known_findings.jsonl
                 return False
             break
     return True
@@ -112,17 +117,30 @@ def comp_same(impl_text, model_text, tol):
     return True
 
 
+_REAL = {}
+
+
+def real_dicts(s):
+    """[dict | exception class name] of formula_to_composition(s) and Substance.from_formula(s).composition (memoised per text)"""
+    r = _REAL.get(s)
+    if r is None:
+        from chempy.util.parsing import formula_to_composition
+        from chempy import Substance
+        r = []
+        for fn in (formula_to_composition, lambda x: Substance.from_formula(x).composition):
+            try:
+                r.append(fn(s))
+            except Exception as e:
+                r.append(exc_name(e))
+        if len(_REAL) > 300000:
+            _REAL.clear()
+        _REAL[s] = r
+    return r
+
+
 def run_real(s):
-    """(canonical text | exception class) of formula_to_composition and of Substance.from_formula(...).composition"""
-    from chempy.util.parsing import formula_to_composition
-    from chempy import Substance
-    outs = []
-    for fn in (formula_to_composition, lambda x: Substance.from_formula(x).composition):
-        try:
-            outs.append(show_comp_impl(fn(s)))
-        except Exception as e:
-            outs.append(exc_name(e))
-    return outs
+    """(canonical text | exception class) of the two real entry points"""
+    return [show_comp_impl(x) if isinstance(x, dict) else x for x in real_dicts(s)]
 
 
 def canon_exc(x):
@@ -181,7 +199,7 @@ class C01(Property):
     props_module = 'ChemModel.Props.C01'
     build_modules = ('ChemModel.Model.Formula', 'ChemModel.Model.FormulaSpec', 'ChemModel.Driver.FormulaJson', 'ChemModel.Basic.Proto')
     driver = 'ChemModel/Driver/C01.lean'
-    n_quick, n_thorough = 3000, 60000
+    n_quick, n_thorough = 3000, 40000
     float_tol = 1e-12
     rule = ('formula ASTs from tools/harness/formula_gen.py (all 118 symbols, nested ( ) [ ] { } groups, @ cages, integer / decimal / explicit-1 '
             'counts, hydrate parts with both separators and leading counts, every default prefix, suffixes, states, primes/stars, charges) rendered '
@@ -221,9 +239,10 @@ class C01(Property):
             f['prefixes'] = [p]
             f['suffix'] = rng.choice([''] + fg.SUFFIXES)
             cases.append({'op': 'roundtrip', 'src': 'gen', 'ast': f})
-        while len([c for c in cases if c.get('src') != 'adjacent']) < n:
+        target = n + len(pairs)
+        while len(cases) < target:
             r = rng.random()
-            f = fg.gen_formula(rng, max_depth=rng.randint(0, depth))
+            f = fg.gen_formula(rng, max_depth=depth if rng.random() < 0.5 else rng.randint(0, depth))
             s = fg.render(f)
             if r < 0.55:
                 cases.append({'op': 'roundtrip', 'src': 'gen', 'ast': f})
@@ -321,15 +340,7 @@ class C01(Property):
         return None
 
     def _real_dicts(self, s):
-        from chempy.util.parsing import formula_to_composition
-        from chempy import Substance
-        out = []
-        for fn in (formula_to_composition, lambda x: Substance.from_formula(x).composition):
-            try:
-                out.append(fn(s))
-            except Exception as e:
-                out.append(exc_name(e))
-        return out
+        return real_dicts(s)
 
     def classify(self, c):
         if c['op'] == 'roundtrip':
